@@ -25,8 +25,12 @@ ASSUMPTIONS = ['Fraction arithmetic is exact; numpy.broadcast_shapes/broadcast_t
 
 OPS = {'add': operator.add, 'sub': operator.sub, 'mul': operator.mul, 'div': operator.truediv}
 IOPS = {'add': operator.iadd, 'sub': operator.isub, 'mul': operator.imul, 'div': operator.itruediv}
-SCALAR_KINDS = ['int', 'float', 'complex', 'npf64', 'npi64', 'npc128', 'npf32', '0d']
-ARRAY_KINDS = ['arr_f', 'arr_i', 'arr_c', 'arr_u8']
+SCALAR_KINDS = ['int', 'float', 'complex', 'npf64', 'npi64', 'npc128', 'npf32', '0d', 'bool', 'fraction', 'npbool', 'npf16', '0d_int']
+ARRAY_KINDS = ['arr_f', 'arr_i', 'arr_c', 'arr_u8', 'arr_sub', 'arr_bool']
+
+
+class _Sub(np.ndarray):
+    """a trivial ndarray subclass (as returned by many libraries)"""
 XSHAPES = [(), (1,), (3,), (2, 3), (1, 3), (2, 1), (2, 1, 2), (2, 2, 3), (3, 3)]
 
 
@@ -73,7 +77,7 @@ def cases(tier, seed):
                             s = case_seed('C02', seed, op, form, kind, rel, D, rep)
                             r = np.random.default_rng(s)
                             out.append({'kind': 'arith', 'seed': s, 'params': {
-                                'op': op, 'form': form, 'other': kind, 'rel': rel, 'D': D, 'P': int(r.integers(1, 4)),
+                                'op': op, 'form': form, 'other': kind, 'rel': rel, 'D': D, 'P': [1, 2, 3, 1, 2, 3, 5, 7][int(r.integers(8))],
                                 'xshape': list(XSHAPES[int(r.integers(len(XSHAPES)))]),
                                 'data': ['ints', 'random', 'complex', 'random', 'tiny'][int(r.integers(5))],
                                 'odata': ['ints', 'random', 'complex', 'random', 'tiny'][int(r.integers(5))],
@@ -89,7 +93,7 @@ def cases(tier, seed):
             for rep in range(2 * reps):
                 s = case_seed('C02', seed, pk, D, rep)
                 r = np.random.default_rng(s)
-                out.append({'kind': 'pow', 'seed': s, 'params': {'op': pk, 'D': D, 'P': int(r.integers(1, 4)),
+                out.append({'kind': 'pow', 'seed': s, 'params': {'op': pk, 'D': D, 'P': [1, 2, 3, 1, 2, 3, 5, 7][int(r.integers(8))],
                                                                   'xshape': list(XSHAPES[int(r.integers(len(XSHAPES)))]),
                                                                   'data': ['random', 'complex', 'tiny'][int(r.integers(3)) if pk.startswith('pow_utpm') else int(r.integers(2))]}})
     return out
@@ -123,6 +127,21 @@ def _mk_other(rng, kind, shape, data, divisor):
         return np.float32(nz(np.array(np.round(rng.normal() * 2, 2))))
     if kind == '0d':
         return np.array(float(nz(np.array(rng.normal() * 2))))
+    if kind == 'bool':
+        return True
+    if kind == 'npbool':
+        return np.bool_(True)
+    if kind == 'fraction':
+        from fractions import Fraction
+        return Fraction(int(rng.choice([-7, -3, -1, 1, 3, 5, 9])), 4)
+    if kind == 'npf16':
+        return np.float16(float(nz(np.array(np.round(rng.normal() * 2, 1)))))
+    if kind == '0d_int':
+        return np.array(int(nz(np.array(int(rng.integers(-4, 5))))))
+    if kind == 'arr_sub':
+        return np.asarray(nz(rng.normal(size=shape) * 2)).view(_Sub)
+    if kind == 'arr_bool':
+        return np.ones(shape, dtype=bool) if divisor else (rng.random(size=shape) < 0.7)
     if kind == 'arr_f':
         return nz(rng.normal(size=shape) * 2)
     if kind == 'arr_i':
@@ -159,8 +178,10 @@ def _ser_of(operand, is_utpm, p, idx, D):
     v = operand[idx] if isinstance(operand, np.ndarray) and operand.ndim else operand
     if isinstance(v, np.ndarray):
         v = v[()]
-    if isinstance(v, (np.float32,)):
+    if isinstance(v, (np.float32, np.float16)):
         v = float(v)
+    if isinstance(v, (np.bool_, bool)):
+        v = int(v)
     if isinstance(v, (np.integer,)):
         v = int(v)
     return Q.const(v, D)
@@ -232,6 +253,8 @@ def run_case(ctx, case):
             other = _mk_other(rng, kind, os_, data, o_div); od = other.copy()
         out_shape = xs
         rel = 'same'
+    if form == 'inplace' and kind == 'fraction':
+        ctx.skip('numpy-rejects:ndarray op= Fraction (object -> float64 under same_kind casting)'); return
     other_cplx = np.iscomplexobj(od)
     if form == 'inplace' and other_cplx and not np.iscomplexobj(xd):
         ctx.skip('inplace-real-op-complex (exempt by the statement)'); return
@@ -305,7 +328,9 @@ def _pow(ctx, case):
     if pk in ('pow_pyint', 'pow_npint'):
         n = int(rng.integers(-3, 6)) if rng.random() < 0.6 else int(rng.integers(6, 14))          # exponents beyond the small ones too
         xd = _mk_utpm_data(rng, D, P, xs, data, n < 0)
-        e = n if pk == 'pow_pyint' else np.int64(n)
+        # integer exponents in every spelling NumPy accepts
+        e = [n, bool(n) if n in (0, 1) else n][int(rng.integers(2))] if pk == 'pow_pyint' else \
+            [np.int64(n), np.int32(n), np.int8(n), np.array(n), np.array(n, dtype=np.int16)][int(rng.integers(5))]
         mech = '%s:%s' % (pk, 'neg' if n < 0 else ('zero' if n == 0 else 'pos'))
         call = lambda x: x ** e
         exact = lambda a: (Q.powi(a, n), Q.majorant('powi', a, n=n))
@@ -315,7 +340,7 @@ def _pow(ctx, case):
         rr = [0.5, 2.5, -1.5, 1.0 / 3][int(rng.integers(4))]
         if pk == 'pow_complex':
             rr = complex(rr, [0.75, -1.25][int(rng.integers(2))])
-        e = rr if pk != 'pow_npfloat' else np.float64(rr)
+        e = rr if pk != 'pow_npfloat' else [np.float64(rr), np.array(rr), np.float32(rr) if rr in (0.5, 2.5, -1.5) else np.float64(rr)][int(rng.integers(3))]
         call = lambda x: x ** e
         mpf = lambda z: mp.exp(O.num(rr) * mp.log(z))
         exact = None; yd = None
